@@ -43,7 +43,7 @@ RULE = (
 )
 ASSUMPTIONS = [
     "arrival instants are nondecreasing and >= 0 (policies are not asked about the past)",
-    "parameters are positive: rates in [0.3, 1e4]/s, capacity >= 1, initial_tokens <= capacity, windows >= 1 ms",
+    "parameters are positive: rates in [0.3, 1e4]/s, capacity >= 1 (initial_tokens may exceed capacity: the bucket must still never hold more than capacity), windows >= 1 ms",
     "fixed-window alignment is to multiples of the window from the epoch; boundary nanoseconds (k*W +- 1 ns) are excluded "
     "from the per-aligned-window count (they are covered by the 2N-in-any-window-length clause)",
     "tolerances: token/adaptive bound + 1e-6 token; leaky spacing and sliding window - 1 ns",
@@ -186,7 +186,7 @@ def gen_policy(kind: str):
             params = {
                 "capacity": cap,
                 "refill_rate": rng.choice(RATES),
-                "initial_tokens": rng.choice([None, None, 0.0, 0.5, 1.0, cap]),
+                "initial_tokens": rng.choice([None, None, 0.0, 0.5, 1.0, cap, cap * 2, cap + 0.5]),
             }
             wf = 1.0 / params["refill_rate"]
         elif kind == "leaky":
